@@ -130,4 +130,11 @@ Next == Advance \/ Overshoot \/ StoreDeps \/ StepRev \/ RevStored \/ LoadRam \/ 
 (* needs at least one forward step.                                          *)
 Remaining == UF * (a - Cardinality(dep))
 Prune == cost + Remaining < I.claim
+
+(* Why pruning is sound: the potential cost + Remaining never decreases along any step, and equals *)
+(* the cost when the adjoint is complete - so a state whose potential has reached the claim cannot *)
+(* lead to a cheaper completed behaviour.  Checked by TLC as an action property (ExecOptAdm.cfg).  *)
+Potential == cost + Remaining
+PotentialMonotone == [][Potential' >= Potential]_vars
+CostBound == cost <= I.claim
 =============================================================================
